@@ -12,7 +12,7 @@ import (
 func init() { Registry["C08"] = checkC08 }
 
 func checkC08(p *core.Prog, r *core.Report) {
-	r.Explanation = "Decides structural necessary conditions of clean-prefix recovery: (R1) the log readers (AofFile.ReadLock, ReadHeader, ReadLockData, ReadTail) never report success after a detected failure: no return of an error value that the path facts prove nil while another error was found non-nil, and ReadLock's success returns carry the full-record equality n == recordLen+2; (R2) ReadHeader succeeds only after n == 12, the magic and the version tests; opening for append truncates a file shorter than its 12-byte header before writing a new header; (R3) in LoadAofFile a failed value read returns the error without invoking the record callback for that record; the record's value blob is read before any skip of the record (so the sequential value file stays aligned); (R4) AofFile.Flush writes the record file before the value file on every path; (R5) value bytes are buffered (dwindex grows) only on paths where records are buffered too (windex > 0), because Close and the rotation path flush only when records are buffered. (R6) the readers never hand out the error of io.ReadFull / io.ReadAtLeast unmapped (a partly present item must read as io.EOF, the only value the loaders treat as end of log). NOT decided: behaviour at each of the 64 residues, re-append alignment after a torn tail, a crash between the two writes, fsync timing - these need crash images."
+	r.Explanation = "Decides structural necessary conditions of clean-prefix recovery: (R1) the log readers (AofFile.ReadLock, ReadHeader, ReadLockData, ReadTail) never report success after a detected failure: no return of an error value that the path facts prove nil while another error was found non-nil, and ReadLock's success returns carry the full-record equality n == recordLen+2; (R2) ReadHeader succeeds only after n == 12, the magic and the version tests; opening for append truncates a file shorter than its 12-byte header before writing a new header; (R3) in LoadAofFile a failed value read returns the error without invoking the record callback for that record; the record's value blob is read before any skip of the record (so the sequential value file stays aligned); (R4) AofFile.Flush writes the record file before the value file on every path; (R5) value bytes are buffered (dwindex grows) only on paths where records are buffered too (windex > 0), because Close and the rotation path flush only when records are buffered. (R6) the readers never hand out the error of io.ReadFull / io.ReadAtLeast unmapped (a partly present item must read as io.EOF, the only value the loaders treat as end of log); (R7) an oversized value is written directly to the value file only with the record buffer empty. NOT decided: behaviour at each of the 64 residues, re-append alignment after a torn tail, a crash between the two writes, fsync timing - these need crash images."
 	r.Assumptions = []string{"Go type checker and go/ssa are correct for /repo", "bufio.Reader.Read returns (n>0, nil) or (0, err)"}
 	c08R1(p, r)
 	c08R2(p, r)
@@ -20,6 +20,7 @@ func checkC08(p *core.Prog, r *core.Report) {
 	c08R4(p, r)
 	c08R5(p, r)
 	c08R6(p, r)
+	c08R7(p, r)
 }
 
 func c08R1(p *core.Prog, r *core.Report) {
@@ -391,5 +392,52 @@ func c08R6(p *core.Prog, r *core.Report) {
 		} else {
 			r.Hold(rule, key, pos, "end of data is reported by the underlying Read (io.EOF)")
 		}
+	}
+}
+
+// c08R7: records are written to the append file before the values they
+// announce (R4, in Flush). A value too large for the value buffer bypasses the
+// buffer and is written to the value file directly - which is only in order
+// when no record is still sitting in the record buffer (windex == 0), i.e. its
+// own record has already been written. Otherwise a crash leaves a value
+// without its record and every later value is paired with the wrong record.
+func c08R7(p *core.Prog, r *core.Report) {
+	const rule = "C08/R7"
+	r.Rule(rule, "WriteLockData writes a value directly to the value file only on a path that established the record buffer empty (windex <= 0) after the last flush", 1)
+	fn := mustFunc(p, r, "server.(*AofFile).WriteLockData")
+	if fn == nil {
+		return
+	}
+	self := fn.Params[0].Name()
+	n := 0
+	ex := core.NewExplorer(p, core.Hooks{
+		Track: func(x *core.X, a core.Atom) bool { return strings.Contains(core.Plain(a.String()), self+".windex") },
+		Instr: func(x *core.X) {
+			if !x.Top() {
+				return
+			}
+			name, _ := core.CallName(x.Ins)
+			if name != "Write" {
+				return
+			}
+			if !strings.HasSuffix(core.Plain(argCanon(x, x.Ins, 0)), ".dataFile") {
+				return
+			}
+			n++
+			key := siteKey(p, x.Ins)
+			f := &x.St.Facts
+			if f.Implies(core.MkAtom(self+".windex", "<=", "0", nil)) || f.Implies(core.MkAtom(self+".windex", "==", "0", nil)) {
+				r.Hold(rule, key, x.Pos(), "record buffer empty: the announcing record is already in the append file")
+			} else {
+				r.Violate(rule, key, x.Pos(), "a value is written straight to the value file while records may still be buffered (windex not established <= 0 on this path): after a crash the value file holds a value whose record was never written, and later values are paired with the wrong records", x.St.Trace)
+			}
+		},
+	})
+	ex.Run(fn, nil)
+	if ex.Imprecise != "" {
+		r.Fail("C08/R7: %s", ex.Imprecise)
+	}
+	if n == 0 {
+		r.Fail("C08/R7: no direct write to the value file found in WriteLockData")
 	}
 }
